@@ -53,6 +53,11 @@ class Atoms:
             return a.const() <= b.const()
         if dominates(b, a):
             return True
+        # b = min(x, y) exactly (an atom created by sz_min): a <= b iff a <= x and a <= y
+        bt = b.single_atom()
+        if bt is not None and bt in getattr(self, 'min_of', {}):
+            if all(self.le(a, u, depth + 1, facts_only) for u in self.min_of[bt]):
+                return True
         return False
 
 
@@ -408,5 +413,8 @@ def sz_min(reg, a, b, origin=None):
     if key in memo:
         return memo[key]
     memo[key] = reg.new('k', free=True, upper=[sa, sb], origin=origin or f'min({sa},{sb})')
+    at = memo[key].single_atom() if isinstance(memo[key], Size) else None
+    if at is not None:
+        reg.__dict__.setdefault('min_of', {})[at] = (sa, sb)
     return memo[key]
     return reg.new('k', free=True, upper=[sa, sb], origin=origin or f'min({sa},{sb})')
